@@ -204,6 +204,7 @@ func (p c08) RunBatch(c *fw.Ctx) {
 	}
 	rec(0)
 	c.Sample(map[string]any{"input": fw.Q("if ( =>"), "modes": "file+line", "note": "one of the enumerated token strings"})
+	p.frames(c)
 	// random token sequences
 	nRand := c.Pick(12000, 150000)
 	for i := 0; i < nRand; i++ {
